@@ -282,7 +282,7 @@ pub fn squash(s: &str) -> String {
     let mut in_tick = false;
     let mut last_digit = false;
     for c in s.chars() {
-        if c == '`' {
+        if c == '`' || c == '"' {
             in_tick = !in_tick;
             if in_tick {
                 out.push_str("`_`");
